@@ -30,6 +30,6 @@
     (define (replace-bit-field size position newfield n)
       (bitwise-ior
        (bitwise-and n (bitwise-not (arithmetic-shift (mask size) position)))
-       (arithmetic-shift newfield position)))
+       (arithmetic-shift (bitwise-and newfield (mask size)) position)))
     (define (copy-bit-field size position from to)
       (bitwise-merge (arithmetic-shift (mask size) position) to from))))
